@@ -13,10 +13,10 @@ add("C01", "property-based testing (rapid) over byte-level generators + exhausti
 add("C02", "property-based testing (rapid): grammar-based program generator with drawn trivia + byte-level inputs; round-trip oracle print(parse(src)) == src, with an independent token render to localise faults",
     "Exploration: generated programs of both families under four trivia policies incl. CRLF, comments, shebang, close tags, heredocs, > 2 pool blocks; error-free byte-level inputs. Byte-exact comparison.",
     "Generated programs avoid the constructs behind open findings (counted in the evidence); lone CR between tokens is excluded because of finding lone-cr-newline.")
-add("C03", "property-based testing (rapid): programs generated as token-bearing ast trees from an independent model (constructors per construct, PHP manual precedence table); oracle: zero errors and structural + token + position equality with the model; negative version-gating cases",
+add("C03", "property-based testing (rapid): programs generated as token-bearing ast trees from an independent model (constructors per construct, PHP manual precedence table); oracle: zero errors and structural + token + position equality with the model; exhaustive enumeration of operator nests (every operator in every operand position of every other, fusion-family triples; all triples in thorough); negative version-gating cases",
     "Exploration: tens of thousands (thorough: > 1M) generated programs per run covering every node kind the generator can derive, all operator pairs, dangling else, keyword case; version gating by fixed PHP 7-only snippets and generated flexible heredocs. PHP itself is not available as referee: 'the tree PHP prescribes' is the generator's transcription of the language reference.",
     "Oracle transcription errors are possible in principle; every disagreement found so far was resolved against the PHP manual. Five valid-PHP shapes are excluded as open findings.")
-add("C04", "property-based testing (rapid): byte-level inputs with rewritten line terminators + generated programs whose expected token sequence/positions come from the generator's own layout; invariant oracle over all tokens (slice equality, independent line model, tiling)",
+add("C04", "property-based testing (rapid): byte-level inputs with rewritten line terminators + generated programs whose expected token sequence/positions come from the generator's own layout; invariant oracle over all tokens (slice equality, independent line model, tiling); thorough adds native go test -fuzz with the same oracle inside the target",
     "Exploration: all tokens and free-floating tokens of every returned tree are checked against the source and an independent line model; tiling/classification/leaf values on error-free inputs; exact expected token streams for generated programs.",
     "Two test-pinned deviations are tolerated by precise matchers (empty heredoc >= 7.3, /**x*/ classified as doc comment) and reported as KNOWN-FINDING.")
 add("C05", "property-based testing (rapid): generated programs under all trivia policies + error-free byte-level inputs; oracle: recorded node span == span recomputed from the node's own token positions with the documented conventions, nesting and sibling order",
@@ -34,7 +34,7 @@ add("C08", "property-based testing (rapid): metamorphic - the same generated pro
 add("C09", "exhaustive enumeration of a (major, minor) grid incl. boundary/huge values against an independent table + property-based differential testing of version pairs, version strings and ordering laws (rapid)",
     "Exploration: the grid is enumerated completely; Validate, Parse and the table must agree; default version == 7.4; same-side versions agree on generated, heredoc-soup and byte-level inputs; New/Compare/InRange against reference implementations.",
     "Values between the listed grid points are not enumerated.")
-add("C10", "property-based differential testing (rapid): programs generated from the common PHP 5/7 subset under all trivia policies, parsed under a 5.x and a 7.x version; trees must be equal in structure, tokens and positions",
+add("C10", "property-based differential testing (rapid): programs generated from the common PHP 5/7 subset under all trivia policies, parsed under a 5.x and a 7.x version; trees must be equal in structure, tokens and positions; plus the exhaustive operator-nest enumeration over the shared operators",
     "Exploration: the common subset is defined by the generator (PHP 5.6 constructs minus what the uniform-variable-syntax RFC regrouped and minus PHP 7-only syntax), not by asking the two parsers.",
     "Shapes behind the PHP 5-only span findings are excluded (counted).")
 add("C11", "race-detector monitoring (go test -race) + property-based differential testing of generated job sets: concurrent results vs sequential reference; parse-twice determinism",
@@ -55,10 +55,10 @@ add("C15", "exhaustive enumeration of node kind x slot subsets with unique marke
 add("C16", "exhaustive enumeration of node kind x slot subsets (hostile values, with/without tokens/positions) + property-based testing on parsed trees; oracle: go/parser + lock-step reader against the reflective schema",
     "Exploration: exhaustive for kinds with <= 10 slots, all/none/single/pair subsets for larger kinds, random subsets, all four option combinations; dumps of parsed trees.",
     "Empty non-nil lists may be dumped as empty literals or omitted (both accepted).")
-add("C17", "property-based testing (rapid): generated programs in three renderings; oracles: parse(F(src)) == parse(src) structurally, F canonical across whitespace-only re-layouts, F idempotent, no panic",
+add("C17", "property-based testing (rapid): generated programs in three renderings; oracles: parse(F(src)) == parse(src) structurally, F canonical across whitespace-only re-layouts, F idempotent, no panic; plus the exhaustive operator-nest enumeration (minimal vs spaced rendering)",
     "Exploration: generated programs of both families; 14 formatter defects found this way were repaired in /repo (reproducers in corpus/C17), 2 are open findings whose triggers are switched off in the generator (counted).",
     "The claim is narrow where constructs are switched off: alternative-syntax statements ending in a close tag, and an alternative-syntax if as unbraced body before else.")
-add("C18", "exhaustive enumeration of (block size, request count) + rapid state machine (Get/write/read-back) against a pointer-identity model",
+add("C18", "exhaustive enumeration of (block size, request count), deep allocation histories (300 000+ requests) + rapid state machine (Get/Get-without-write/write/read-back) against a pointer-identity model",
     "Exploration: every (block size 1..64, request count 0..5*size+3) history of both pools exhaustively, the default 1024 size around 1..6 boundaries, sizes around powers of two up to 2^17 crossing the 2^16 boundary, rapid-drawn sizes up to 8192 and a rapid state machine; each object is stamped and all earlier objects re-read.",
     "Trusts Go pointer identity and the GC keeping old blocks alive; sizes > 2^17 not explored.")
 
